@@ -120,12 +120,41 @@ def hazard_sweep(rec, pvl, check, reader_of, part, nparts, tier):
                                      "text": o.text, "workload": "hazard-sweep"},
                                     o.detail)
 
+    # two strings in one statement: one with a single quote character of one
+    # kind in it, and a long one with dashes and blanks that has to be wrapped
+    # (what is done for one quoted string must not shift the pairing for the next)
+    odd = ('6" aperture', "it's", 'say "x', "x'", '"', "'")
+    for dialect in DIALECTS:
+        for width in (20, 40, 80):
+            for a in odd:
+                for pad in range(0, 13):
+                    b = "w " * pad + "mount - on loan from the observatory- annex a-  b"
+                    for cname, value in (("pair", [a, b]), ("pair-reversed", [b, a]),
+                                         ("between", [a, b, a]), ("two-long", [a, b, b])):
+                        n += 1
+                        if n % nparts != part:
+                            continue
+                        if not all(in_charset(dialect, x) for x in value):
+                            continue
+                        cfg = {"width": width, "indent": 2, "aggregation_end": True}
+                        m = wrap_levels(col, "optics", value, 0)
+                        o = roundtrip(pvl, dialect, cfg, m, reader_of(dialect))
+                        rec.case((check, "pair-sweep", dialect, width, a, pad, cname), True)
+                        rec.count(f"pair_sweep[{o.kind}]")
+                        if o.bad:
+                            rec.violation(
+                                check, dialect, o.kind,
+                                {"value": "seq[str:odd-quote, str:long-with-dashes]",
+                                 "context": cname},
+                                {"dialect": dialect, "cfg": cfg, "value": repr(value),
+                                 "text": o.text, "workload": "pair-sweep"}, o.detail)
+
 
 def finish_kwargs(rec, tier):
     req = [f"representable[{d}]" for d in DIALECTS]
     req += [f"outcome[{d}][ok]" for d in DIALECTS]
     req += ["modules_with_duplicate_keys", "modules_with_nesting"]
-    req += [f"sweep[{d}][ok]" for d in DIALECTS]
+    req += [f"sweep[{d}][ok]" for d in DIALECTS] + ["pair_sweep[ok]"]
     return dict(required_counters=req,
                 assumptions=["normalisation relation of DESIGN 3.7, implemented "
                              "without the library's decoder",
